@@ -261,6 +261,38 @@ def run_c06(tier):
     t, m = line_traces(Cfg("TESTSALT", on4=False), r.sample(lines, min(len(lines), 1500 if thorough else 600)) + EXTRA_LINES)
     traces += t
     meta += m
+    # the public per-line call takes the direction per call: one long-lived pair of anonymizers is asked to rewrite
+    # and to undo the SAME spellings, interleaved (originals, images, originals again)
+    for icfg in (Cfg("both-ways"), Cfg("both-ways-0", ps4=0, ps6=0, pins=[])):
+        a4, a6 = icfg.make()
+        ins = ["a 1.2.3.4 b 2001:db8::7", "x 010.1.2.3/24 y", "ntp ::ffff:9.8.7.6", "h 99.1.2.3 99.1.2.3", "v6 fe80::1%eth0 FE80::1", "r 172.20.1.9 via 8.8.4.4"]
+        ev = [icfg.event(TEXT_CLAUSES)] + api_events(icfg)
+        head = len(ev)
+        tx = []
+        ucfg = Cfg(icfg.salt, ps4=icfg.ps4, ps6=icfg.ps6, pins=icfg.pins, undo=True)
+        try:
+            fwd = [rewrite_stagewise(icfg, a4, a6, ln) for ln in ins]
+            for ln, o in zip(ins, fwd):
+                ev.append({"ev": "line", "in": cps(ln), "out": cps(o)})
+                tx.append((ln, o))
+            for rnd in range(2):
+                ev.append({"ev": "mode", "undo": True})
+                tx.append(("", ""))
+                for ln in ins + fwd:
+                    o = rewrite_stagewise(ucfg, a4, a6, ln)
+                    ev.append({"ev": "line", "in": cps(ln), "out": cps(o)})
+                    tx.append((ln, o))
+                ev.append({"ev": "mode", "undo": False})
+                tx.append(("", ""))
+                for ln in fwd + ins:
+                    o = rewrite_stagewise(icfg, a4, a6, ln)
+                    ev.append({"ev": "line", "in": cps(ln), "out": cps(o)})
+                    tx.append((ln, o))
+        except Exception as e:
+            ev.append({"ev": "exc", "what": "interleaved directions: %r" % (e,)})
+            tx.append(("interleaved", "EXC"))
+        traces.append(ev)
+        meta.append({"cfg": icfg.describe(), "via": "stage, both directions on one pair of objects", "lines": tx, "head": head})
     judge(ck, pid, traces, meta, "text")
     # the repository's own tests re-run under the recorder: every anonymize_ip_addr call they make
     import c_suite
@@ -485,9 +517,19 @@ def file_level(ck, pid, tier):
             ind0 = os.path.join(base, "in0")
             write_tree(ind0, sample_files(rng(pid, "files-earlier", si), nfiles=2, nlines=8))
             run_main(["-a", "-s", "earlier-salt", "-i", ind0, "-o", os.path.join(base, "out0"), "-d", mapfile], hashseed=0)
+        badname = None
+        if pid == "C17" and si % 2 == 1:
+            # a file that cannot be decoded, in a sub-directory (walked after the top-level files): the run goes on, and
+            # the map still lists the replacements made in the files before and after it
+            badname = os.path.join("a dir", "bad.bin")
+            os.makedirs(os.path.join(ind, "a dir"), exist_ok=True)
+            with open(os.path.join(ind, badname), "wb") as fh:
+                fh.write(b"host 7.7.7.7\n\xff\xfe\x00bad\xff\n")
         # run 1: whole directory, one process
         out1 = os.path.join(base, "out1")
         rc, err = run_main(["-a", "-s", salt, "-i", ind, "-o", out1] + hb, hashseed=si)
+        if badname and os.path.exists(os.path.join(out1, badname)):
+            os.remove(os.path.join(out1, badname))          # whatever was left of the failed file is C16's business
         got = read_tree(out1) if os.path.isdir(out1) else {}
         if rc != 0 or set(got) != set(files):
             ev.append({"ev": "exc", "what": "main -a rc=%s files=%s err=%s" % (rc, sorted(got), err[-300:])})
